@@ -12,6 +12,13 @@ fractional months (that needs evaluation over the hours - a test, not a static a
   R19.3  bore-field table: one [x, y] row per element of gFunction.bore_locations, in order, x before y
   R19.4  g-function table: the rows come from grab_g_function(B_spacing / H) - the producer and argument the
          simulation uses - as (ln(t/ts), g, g at the borehole wall) of the two interpolants
+  R19.5  custody of the listed coordinates: the container the bore-field table reads (gFunction.bore_locations of the
+         design's GHE) is, on every way it can be set, the unchanged coordinate container given to the function that
+         builds the design object: the only store of .bore_locations is the g-function class' constructor storing its
+         parameter; every construction of that class, every call of a function that hands its parameter on to it,
+         and every store of .gFunction passes the container on without computing, filtering, slicing, reordering
+         or mutating it (list() / copy / identity comprehension are accepted), or re-reads it from the object's own
+         gFunction.bore_locations (the rebuild in compute_g_functions).  Which field a search hands in is C05 / C01.
 """
 from __future__ import annotations
 
@@ -19,7 +26,8 @@ import ast
 import calendar
 
 from .. import sym
-from ..model import AnalysisError, inline_single_defs, Program, attr_chain, norm_stmt
+from ..custody import root_of
+from ..model import MUTATORS, AnalysisError, inline_single_defs, Program, attr_chain, bind_args, norm_stmt, walk_no_nested
 from ..paths import Const, Engine, Hooks, Opaque, Seq, State, vkey
 from ..report import Result
 from ..selftest import Variant
@@ -417,14 +425,206 @@ def check(prog: Program, tier: str) -> Result:
     res.ob("R19.4", "rows are (ln(t/ts), g, g_bhw) = (x and y of the simulation curve, y of the wall curve), in the curve's order", okz, prog.loc(fi, zp[0]) if zp else prog.loc(fi, fi.node))
     if not okz:
         res.violation("R19.4", "gfunc-rows", prog.loc(fi, zp[0]) if zp else prog.loc(fi, fi.node), q, "the g-function table rows are not (x, y) of the simulation curve with y of the wall curve")
+    _check_custody(prog, res)
     return res
+
+
+# ---------------------------------------------------------------------------
+FIELD = "bore_locations"
+HOLDER = "gFunction"
+
+
+def _expand_kwargs(fn, call: ast.Call, target_fi) -> dict:
+    """bind_args, with a single  **name  argument expanded when `name` is one dict literal with constant keys"""
+    b = dict(bind_args(target_fi, call))
+    for kw in call.keywords:
+        if kw.arg is None:
+            d = kw.value
+            if isinstance(d, ast.Name):
+                defs = [s.value for s in walk_no_nested(fn) if isinstance(s, ast.Assign) and len(s.targets) == 1 and isinstance(s.targets[0], ast.Name) and s.targets[0].id == d.id]
+                touched = [n for n in walk_no_nested(fn) if isinstance(n, ast.Subscript) and isinstance(n.ctx, ast.Store) and isinstance(n.value, ast.Name) and n.value.id == d.id]
+                touched += [n for n in walk_no_nested(fn) if isinstance(n, ast.Call) and isinstance(n.func, ast.Attribute) and n.func.attr in MUTATORS and isinstance(n.func.value, ast.Name) and n.func.value.id == d.id]
+                if len(defs) != 1 or touched:
+                    raise AnalysisError(f"**{d.id}: the dictionary is not a single literal")
+                d = defs[0]
+            if not (isinstance(d, ast.Dict) and all(isinstance(k, ast.Constant) and isinstance(k.value, str) for k in d.keys)):
+                raise AnalysisError(f"**{ast.unparse(kw.value)[:40]}: keys are not string literals")
+            for k, v in zip(d.keys, d.values):
+                b[k.value] = v
+    return b
+
+
+def _call_sites(prog: Program, funcs, tfi):
+    """(calling function, Call node, bound arguments) of every call of tfi in the package; for a constructor:  Cls(...) of
+    the class and of subclasses inheriting it,  Cls.__init__(self, ...)  and  super().__init__(...)  of direct subclasses"""
+    if tfi.name != "__init__":
+        for fi in funcs:
+            for n in walk_no_nested(fi.node):
+                if isinstance(n, ast.Call) and (attr_chain(n.func) or "").split(".")[-1] == tfi.name:
+                    yield fi, n, _expand_kwargs(fi.node, n, tfi)
+        return
+    cq = tfi.qualname.rsplit(".", 1)[0]
+    names = {tfi.cls} | {c.name for c in prog.subclasses(cq) if prog.method(c.qualname, "__init__") is tfi}
+    direct = {c.name for c in prog.subclasses(cq) if "__init__" in c.methods and prog.mro(c.qualname)[1:] and prog.method(prog.mro(c.qualname)[1].qualname, "__init__") is tfi}
+    for fi in funcs:
+        for n in walk_no_nested(fi.node):
+            if not isinstance(n, ast.Call):
+                continue
+            ch = attr_chain(n.func) or ""
+            if ch.split(".")[-1] in names:
+                yield fi, n, _expand_kwargs(fi.node, n, tfi)
+            elif ch.endswith(".__init__") and ch.split(".")[-2] in names and n.args:
+                shifted = ast.Call(func=n.func, args=n.args[1:], keywords=n.keywords)
+                ast.copy_location(shifted, n)
+                yield fi, n, _expand_kwargs(fi.node, shifted, tfi)
+            elif isinstance(n.func, ast.Attribute) and n.func.attr == "__init__" and isinstance(n.func.value, ast.Call) and attr_chain(n.func.value.func) == "super" and fi.cls in direct and fi.name == "__init__":
+                yield fi, n, _expand_kwargs(fi.node, n, tfi)
+
+
+def _check_custody(prog: Program, res: Result):
+    funcs = list(prog.funcs.values())
+    # (1) who stores / mutates .bore_locations
+    ctor = None
+    n_sites = 0
+    for fi in funcs:
+        for n in walk_no_nested(fi.node):
+            if isinstance(n, ast.Attribute) and n.attr == FIELD and isinstance(n.ctx, (ast.Store, ast.Del)):
+                n_sites += 1
+                stmt = next((s for s in walk_no_nested(fi.node) if isinstance(s, ast.Assign) and any(t is n for t in s.targets)), None)
+                own = fi.name == "__init__" and attr_chain(n) == f"self.{FIELD}" and stmt is not None
+                r = root_of(fi.node, stmt.value) if own else None
+                ok = own and r[0] == "param"
+                res.ob("R19.5", f"{fi.qualname}: stores .{FIELD} = its own parameter, unchanged", bool(ok), prog.loc(fi, n))
+                if own and r[0] == "unknown":
+                    raise AnalysisError(f"{fi.qualname}: origin of the stored {FIELD} not understood ({r[2]})")
+                if not ok:
+                    res.violation("R19.5", f"store|{fi.qualname}", prog.loc(fi, n), fi.qualname,
+                                  f".{FIELD} is {'computed in the constructor (' + r[2] + ')' if own else 'overwritten outside the constructor of its class'}: the bore-field table no longer lists the coordinates the design was built from")
+                else:
+                    if ctor is not None and ctor[0] is not fi:
+                        raise AnalysisError(f"two classes store .{FIELD}")
+                    ctor = (fi, r[1])
+            mut = None
+            if isinstance(n, ast.Call) and isinstance(n.func, ast.Attribute) and n.func.attr in MUTATORS and isinstance(n.func.value, ast.Attribute) and n.func.value.attr == FIELD:
+                mut = n
+            if isinstance(n, ast.Subscript) and isinstance(n.ctx, (ast.Store, ast.Del)) and isinstance(n.value, ast.Attribute) and n.value.attr == FIELD:
+                mut = n
+            if isinstance(n, ast.AugAssign) and isinstance(n.target, ast.Attribute) and n.target.attr == FIELD:
+                mut = n
+            if mut is not None:
+                n_sites += 1
+                res.ob("R19.5", f"{fi.qualname}: .{FIELD} modified in place", False, prog.loc(fi, mut))
+                res.violation("R19.5", f"mutate|{fi.qualname}|{norm_stmt(mut)[:60]}", prog.loc(fi, mut), fi.qualname, f".{FIELD} is modified in place ({norm_stmt(mut)[:80]})")
+    if ctor is None:
+        if not any(f.rule == "R19.5" for f in res.findings):
+            raise AnalysisError(f"no constructor stores .{FIELD}")
+        return
+    cfi, cparam = ctor
+    cls_name = cfi.cls
+    # (2) carriers: (function, parameter) pairs whose parameter ends up in .bore_locations; start with the constructor
+    carriers = {(cfi.qualname, cparam): cfi}
+    producers = {cfi.cls}  # call names whose RESULT is an object holding the custody
+    work = [(cfi, cparam)]
+    seen_calls = 0
+    while work:
+        tfi, tparam = work.pop()
+        tname = tfi.cls if tfi.name == "__init__" else tfi.name
+        for fi, n, b in _call_sites(prog, funcs, tfi):
+            if tparam not in b:
+                if tparam in tfi.defaults():
+                    res.ob("R19.5", f"{fi.qualname}: {tname}(...) leaves {tparam} at its default", False, prog.loc(fi, n))
+                    res.violation("R19.5", f"pass|{fi.qualname}|{tname}|default", prog.loc(fi, n), fi.qualname, f"{tname}() is called without its {tparam}")
+                    continue
+                raise AnalysisError(f"{fi.qualname}: argument {tparam} of {tname}(...) not found")
+            seen_calls += 1
+            r = root_of(fi.node, b[tparam])
+            if r[0] == "unknown":
+                raise AnalysisError(f"{prog.loc(fi, n)}: origin of the {tparam} passed to {tname}() not understood ({r[2]})")
+            ok = r[0] in ("param", "elem") or (r[0] == "chain" and r[1] == f"self.{HOLDER}.{FIELD}")
+            res.ob("R19.5", f"{fi.qualname}: passes {'its parameter ' + r[1] if r[0] == 'param' else r[1] if r[0] in ('chain', 'elem') else ast.unparse(b[tparam])[:40]} unchanged as {tparam} of {tname}()", ok, prog.loc(fi, n))
+            if not ok:
+                why = r[2] if r[0] == "broken" else f"it comes from {ast.unparse(r[1])[:60] if r[0] == 'call' else r[1]}"
+                res.violation("R19.5", f"pass|{fi.qualname}|{tname}", prog.loc(fi, r[1]) if r[0] == "broken" and hasattr(r[1], "lineno") else prog.loc(fi, n), fi.qualname,
+                              f"the {tparam} handed to {tname}() is not the coordinate container the caller was given: {why}; the bore-field table lists it through {HOLDER}.{FIELD}")
+                continue
+            if r[0] == "param" and (fi.qualname, r[1]) not in carriers and not fi.cls:
+                # a module-level function that hands its parameter on and returns the object: follow its callers too
+                rets = [x for x in walk_no_nested(fi.node) if isinstance(x, ast.Return) and x.value is not None]
+                if rets and all((rr := root_of(fi.node, x.value))[0] == "call" and rr[1] is n for x in rets):
+                    carriers[(fi.qualname, r[1])] = fi
+                    producers.add(fi.name)
+                    work.append((fi, r[1]))
+    # (3) stores of .gFunction: a parameter, or the result of a producer
+    n_hold = 0
+    holders = []
+    for fi in funcs:
+        for s in walk_no_nested(fi.node):
+            if not isinstance(s, ast.Assign):
+                continue
+            for t in s.targets:
+                if isinstance(t, ast.Attribute) and t.attr == HOLDER:
+                    n_hold += 1
+                    r = root_of(fi.node, s.value)
+                    if r[0] == "unknown":
+                        raise AnalysisError(f"{prog.loc(fi, s)}: origin of the stored {HOLDER} not understood ({r[2]})")
+                    ok = (r[0] == "param" and fi.name == "__init__") or (r[0] == "call" and (attr_chain(r[1].func) or "").split(".")[-1] in producers)
+                    res.ob("R19.5", f"{fi.qualname}: .{HOLDER} = {'its constructor parameter' if r[0] == 'param' else ast.unparse(r[1])[:50] if r[0] == 'call' else r[1]}", ok, prog.loc(fi, s))
+                    if ok and r[0] == "param":
+                        holders.append((fi, r[1]))
+                    if not ok:
+                        res.violation("R19.5", f"holder|{fi.qualname}", prog.loc(fi, s), fi.qualname,
+                                      f".{HOLDER} is set from {ast.unparse(s.value)[:60]}, which is neither the constructor's argument nor a g-function built from the coordinates in custody")
+    # (4) constructions of the classes that store their parameter in .gFunction: the argument is a g-function made by a producer
+    hwork = list(holders)
+    hseen = set()
+    while hwork:
+        tfi, tparam = hwork.pop()
+        if (tfi.qualname, tparam) in hseen:
+            continue
+        hseen.add((tfi.qualname, tparam))
+        for fi, n, b in _call_sites(prog, funcs, tfi):
+            if tparam not in b:
+                raise AnalysisError(f"{prog.loc(fi, n)}: argument {tparam} of {tfi.cls}(...) not found")
+            n_hold += 1
+            r = root_of(fi.node, b[tparam])
+            if r[0] == "unknown":
+                raise AnalysisError(f"{prog.loc(fi, n)}: origin of the {tparam} passed to {tfi.cls}() not understood ({r[2]})")
+            ok = (r[0] == "param" and fi.name == "__init__") or (r[0] == "call" and (attr_chain(r[1].func) or "").split(".")[-1] in producers)
+            res.ob("R19.5", f"{fi.qualname}: {tfi.cls}(...) receives {'its own constructor parameter ' + r[1] if r[0] == 'param' else ast.unparse(r[1])[:44] + '...' if r[0] == 'call' else r[1]} as {tparam}", ok, prog.loc(fi, n))
+            if not ok:
+                res.violation("R19.5", f"holder-arg|{fi.qualname}|{tfi.cls}", prog.loc(fi, n), fi.qualname,
+                              f"the {tparam} given to {tfi.cls}() is {ast.unparse(b[tparam])[:60]}: not a g-function built from the coordinates in custody")
+            elif r[0] == "param":
+                hwork.append((fi, r[1]))
+    res.count("custody_sites", n_sites + seen_calls + n_hold)
+    if not any(f.rule == "R19.5" for f in res.findings):  # a broken link ends the walk up the callers: the count is only meaningful on an intact chain
+        res.floor("custody_sites", 12)
+    for q_ in sorted({k[0] for k in carriers}):
+        res.analysed(q_)
 
 
 _CAL_OLD = '    @staticmethod\n    def hours_to_month(hours):\n        days_in_year = [31, 28, 31, 30, 31, 30, 31, 31, 30, 31, 30, 31]\n        hours_in_year = [HRS_IN_DAY * x for x in days_in_year]\n        n_years = floor(hours / sum(hours_in_year))\n        frac_month = n_years * len(days_in_year)\n        month_in_year = 0\n        for idx, _ in enumerate(days_in_year):\n            hours_left = hours - n_years * sum(hours_in_year)\n            if sum(hours_in_year[0 : idx + 1]) >= hours_left:\n                month_in_year = idx\n                break\n        frac_month += month_in_year\n        h_l = hours - n_years * sum(hours_in_year) - sum(hours_in_year[0:month_in_year])\n        frac_month += h_l / (hours_in_year[month_in_year])\n        return frac_month\n\n    @staticmethod\n    def ghe_time_convert(hours):\n        days_in_year = [31, 28, 31, 30, 31, 30, 31, 31, 30, 31, 30, 31]\n        hours_in_year = [HRS_IN_DAY * x for x in days_in_year]\n        month_in_year = 0\n        year_hour_sum = 0\n        for idx, _ in enumerate(days_in_year):\n            hours_left = hours\n            if year_hour_sum + hours_in_year[idx] - 1 >= hours_left:\n                month_in_year = idx\n                break\n            else:\n                year_hour_sum += hours_in_year[idx]\n        h_l = hours - sum(hours_in_year[0:month_in_year])\n        day_in_month = floor(h_l / HRS_IN_DAY) + 1\n        hour_in_day = h_l % HRS_IN_DAY + 1\n        return month_in_year + 1, day_in_month, hour_in_day\n'
 _CAL_HELPER_BAD = '    @staticmethod\n    def _locate_month(hours_in_year, hour_of_year):\n        elapsed = 0\n        for idx, month_hours in enumerate(hours_in_year):\n            if elapsed + month_hours >= hour_of_year:\n                return idx, elapsed\n            elapsed += month_hours\n        return 0, 0\n\n    @staticmethod\n    def hours_to_month(hours):\n        days_in_year = [31, 28, 31, 30, 31, 30, 31, 31, 30, 31, 30, 31]\n        hours_in_year = [HRS_IN_DAY * x for x in days_in_year]\n        n_years = floor(hours / sum(hours_in_year))\n        hours_left = hours - n_years * sum(hours_in_year)\n        month_in_year, elapsed = OutputManager._locate_month(hours_in_year, hours_left)\n        frac_month = n_years * len(days_in_year) + month_in_year\n        frac_month += (hours_left - elapsed) / (hours_in_year[month_in_year])\n        return frac_month\n\n    @staticmethod\n    def ghe_time_convert(hours):\n        days_in_year = [31, 28, 31, 30, 31, 30, 31, 31, 30, 31, 30, 31]\n        hours_in_year = [HRS_IN_DAY * x for x in days_in_year]\n        month_in_year, elapsed = OutputManager._locate_month(hours_in_year, hours)\n        h_l = hours - elapsed\n        day_in_month = floor(h_l / HRS_IN_DAY) + 1\n        hour_in_day = h_l % HRS_IN_DAY + 1\n        return month_in_year + 1, day_in_month, hour_in_day\n'
 _CAL_HELPER_OK = '    @staticmethod\n    def _locate_month(hours_in_year, hour_of_year):\n        elapsed = 0\n        for idx, month_hours in enumerate(hours_in_year):\n            if elapsed + month_hours >= hour_of_year:\n                return idx, elapsed\n            elapsed += month_hours\n        return 0, 0\n\n    @staticmethod\n    def hours_to_month(hours):\n        days_in_year = [31, 28, 31, 30, 31, 30, 31, 31, 30, 31, 30, 31]\n        hours_in_year = [HRS_IN_DAY * x for x in days_in_year]\n        n_years = floor(hours / sum(hours_in_year))\n        hours_left = hours - n_years * sum(hours_in_year)\n        month_in_year, elapsed = OutputManager._locate_month(hours_in_year, hours_left)\n        frac_month = n_years * len(days_in_year) + month_in_year\n        frac_month += (hours_left - elapsed) / (hours_in_year[month_in_year])\n        return frac_month\n\n    @staticmethod\n    def ghe_time_convert(hours):\n        days_in_year = [31, 28, 31, 30, 31, 30, 31, 31, 30, 31, 30, 31]\n        hours_in_year = [HRS_IN_DAY * x for x in days_in_year]\n        month_in_year, elapsed = OutputManager._locate_month(hours_in_year, hours + 1)\n        h_l = hours - elapsed\n        day_in_month = floor(h_l / HRS_IN_DAY) + 1\n        hour_in_day = h_l % HRS_IN_DAY + 1\n        return month_in_year + 1, day_in_month, hour_in_day\n'
 
+GHXM = "ghedesigner.ground_heat_exchangers"
+GFM = "ghedesigner.gfunction"
+SRM = "ghedesigner.search_routines"
+
 VARIANTS = [
+    Variant("compute_g_functions rebuilds the g-function in a frame anchored at the field's corner (seeded C19_c)", "break",
+            [(GHXM, "        coordinates = self.gFunction.bore_locations\n",
+              "        x_0 = min(x for x, _ in self.gFunction.bore_locations)\n        y_0 = min(y for _, y in self.gFunction.bore_locations)\n        coordinates = [(x - x_0, y - y_0) for x, y in self.gFunction.bore_locations]\n")], "R19.5"),
+    Variant("compute_g_functions hands a copy of its own coordinates on", "benign",
+            [(GHXM, "        coordinates = self.gFunction.bore_locations\n", "        own = self.gFunction\n        coordinates = [(x, y) for x, y in own.bore_locations]\n")]),
+    Variant("the g-function object stores its coordinates sorted", "break",
+            [(GFM, "        self.bore_locations: list = bore_locations\n", "        self.bore_locations: list = sorted(bore_locations)\n")], "R19.5"),
+    Variant("the g-function object stores a list copy of its coordinates", "benign",
+            [(GFM, "        self.bore_locations: list = bore_locations\n", "        self.bore_locations: list = list(bore_locations)\n")]),
+    Variant("the builder records rounded coordinates", "break",
+            [(GFM, '        "bore_locations": coordinates,\n', '        "bore_locations": [(round(x, 1), round(y, 1)) for x, y in coordinates],\n')], "R19.5"),
+    Variant("initialize_ghe drops duplicate coordinates before building the g-function", "break",
+            [(SRM, "        self.ghe.bhe.b.H = h\n        borehole = self.ghe.bhe.b\n        fluid = self.ghe.bhe.fluid\n", "        coordinates = sorted(set(map(tuple, coordinates)))\n        self.ghe.bhe.b.H = h\n        borehole = self.ghe.bhe.b\n        fluid = self.ghe.bhe.fluid\n")], "R19.5"),
     Variant("month search extracted into a shared helper, called with the 0-based index as if it were elapsed hours (seeded C19_b)", "break", [(OUTM, _CAL_OLD, _CAL_HELPER_BAD)], "R19.1"),
     Variant("month search extracted into a shared helper, ghe_time_convert passes index + 1", "benign", [(OUTM, _CAL_OLD, _CAL_HELPER_OK)]),
     Variant("hours_to_month: month search compares against the total hours (seeded C19)", "break",
